@@ -98,6 +98,10 @@ ASSUMPTIONS = [
     "callbacks that run after the first exception, the return value of unhandled_input, filter calls with an "
     "empty key list, calls of unhandled_input for the REDRAW_SCREEN key, and redraws after alarm / pipe / file "
     "callbacks are not asserted (statement silent)",
+    "'the topmost widget' is read per key: MainLoop.widget is documented as modifiable and process_input as "
+    "passing input to `widget`, so a key is owed to whatever loop.widget (or the pop-up opened over it through "
+    "PopUpLauncher / pop_ups=True) is when that key's turn comes, also for later keys of the same batch; mouse "
+    "clicks while a pop-up is open are not generated (Overlay geometry decides their target: discarded)",
     "true signal-vs-read races inside the kernel are not enumerated: the schedule is the scripted order",
 ]
 
